@@ -5,6 +5,8 @@ LEVEL = 'proof'
 
 
 def run(R):
+    from engine.canary import run_canaries
+    run_canaries(R, ('symx',))
     R.assume('A1', 'A6', 'A9')
     R.trust('finite-set facts for the termination variant: a map with a present key has cardinality >= 1; deleting a present key lowers it by 1')
     R.trust('requires: var_importance values >= 0; clear_cache_every_nbr_calc >= 1; memory_threshold_inGB > 0; Nx,Ny,Nz >= 1; users do not delete entries of data by hand (I1 on entry)')
